@@ -596,6 +596,11 @@ class Engine:
     return self.and_(*res)
 
   def compare(self, st, op, a, b, node):
+    if (not st.spec and st.__dict__.get("cong_mod") is not None and isinstance(op, (ast.Eq, ast.NotEq, ast.Lt, ast.LtE,
+                                                                                   ast.Gt, ast.GtE))
+        and (self._tainted(st, a) or self._tainted(st, b))):
+      # congruence mode: the real code compares reduced residues; nothing is known about the unreduced values
+      return z3.Bool(V.fresh_name("cmp_residues"))
     if isinstance(op, ast.Eq):
       return self.eq(st, a, b)
     if isinstance(op, ast.NotEq):
@@ -760,7 +765,30 @@ class Engine:
     return self.divmod_terms(st, x, y, node)[0]
 
   def mod(self, st, x, y, node):
+    cm = st.__dict__.get("cong_mod")
+    if cm is not None and not st.spec and is_sym(y) and y.eq(cm):
+      # congruence mode: drop the reduction, remember that the value is only defined up to multiples of the modulus
+      xx = to_z3(x)
+      st.__dict__.setdefault("reduced_ids", set()).add(xx.get_id())
+      st.__dict__.setdefault("reduced_keep", []).append(xx)
+      return xx
     return self.divmod_terms(st, x, y, node)[1]
+
+  def _tainted(self, st, v):
+    ids = st.__dict__.get("reduced_ids")
+    if not ids or not is_sym(v):
+      return False
+    stack, seen = [v], set()
+    while stack:
+      t = stack.pop()
+      i = t.get_id()
+      if i in seen:
+        continue
+      seen.add(i)
+      if i in ids:
+        return True
+      stack.extend(t.children())
+    return False
 
   # ---- attribute / subscript / call
 
@@ -2169,6 +2197,14 @@ class Engine:
       st.spec_depth -= 1
     if c.entry_ghost:
       self.run_ghost(st, c.entry_ghost, {}, f"{c.qual}/entry", 0)
+    if getattr(c, "congruence_mod", None):
+      st.spec_depth += 1
+      try:
+        st.__dict__["cong_mod"] = to_z3(self.ev(ast.parse(c.congruence_mod, mode="eval").body, st))
+      finally:
+        st.spec_depth -= 1
+      self.abstracted.add(f"congruence mode in {c.qual}: every `e % {c.congruence_mod}` of the code is replaced by e; "
+                          "equalities in its postconditions are congruences modulo that value")
     return env
 
   def record_input(self, st, name, v):
